@@ -196,7 +196,7 @@ def case(args):
                                'expected': 'limit=N returns min(N, M) distinct requests of the unlimited result with summaries '
                                            'covering them; identical repeats with randomisation off',
                                'observed': detail}})
-    except Exception:
+    except BaseException:      # incl. an escaped RequestHang: a dead pool worker would hang the check
         out['error'] = traceback.format_exc()
     return out
 
